@@ -88,7 +88,7 @@ PROPS = {
                     'built_in_functor.rs::atoms_match': 'c17_functor', '*': 'c17_filter'},
         'not_covered': [
             'join: Display of a term is the uninterpreted `disp` (R10: format!("{}", term) wrapped); `String += &str` and atom!(out) are wrapped into external functions (R10)',
-            'functor: the prefix test is the uninterpreted str_has_prefix tied to str::starts_with (R11)',
+            'functor: the prefix test is str::starts_with, assumed to compare the leading characters (str_has_prefix, R11 / T3)',
             'termination of the walks through bound tails (exec_allows_no_decreases_clause)',
             "include/exclude: 'unify with the filter term' is the uninterpreted unify_ok, tied to the real unify by the purity assumption",
         ],
